@@ -22,7 +22,8 @@ Outcomes(n) == {o \in Bools(n) \X Bools(n) : \A m \in 1..n : ~o[1][m] => o[2][m]
 ProgsN(n) == {WithDesc([n |-> n, parent |-> p, req |-> q, iok |-> o[1], sok |-> o[2]]) : p \in Parents(n), q \in Reqs(n), o \in Outcomes(n)}
 Programs == UNION {ProgsN(n) : n \in 1..MaxN}
 
-Init == /\ prog \in Programs
+Init == /\ \E n \in 1..MaxN : \E p \in Parents(n), q \in Reqs(n), o \in Outcomes(n) :       \* = prog \in Programs, enumerated lazily
+             prog = WithDesc([n |-> n, parent |-> p, req |-> q, iok |-> o[1], sok |-> o[2]])
         /\ st = [m \in Mods(prog) |-> "N"]
         /\ mon = MonInit(prog)
         /\ ph = 0 /\ dOK = TRUE /\ alive = TRUE
@@ -51,7 +52,7 @@ Next == Initialize \/ Start \/ Stop \/ Cleanup \/ Destroy
 Spec == Init /\ [][Next]_vars
 
 -----------------------------------------------------------------------------
-TypeOK == /\ prog \in Programs /\ st \in [Mods(prog) -> {"N", "I", "R"}] /\ ph \in {0, 1, 9}
+TypeOK == /\ WellFormed(prog) /\ prog.n <= MaxN /\ st \in [Mods(prog) -> {"N", "I", "R"}] /\ ph \in {0, 1, 9}
           /\ mon.bad \subseteq {"ExactlyOnce", "Nested", "StartOnlyAfterInit", "StopOnlyIfStarted", "ReverseOrder",
                                 "CleanupOnlyAfterStop", "Balanced", "HooksCalled", "OptionalFailureIsolated"}
 \* the clauses of the statement
